@@ -76,4 +76,12 @@ META.update({
         technique="property-based testing (rapid): harness-controlled completion orders (gated attempts + generated DelayFunc) with a step oracle, plus randomised racing trials with a log-invariant oracle",
     ),
 })
+META.update({
+    "C08": dict(
+        text="Property testing of cancellation with the cancellation point as a generated input: twelve composition shapes around a retry or hedge policy, four sources (context cancel, context deadline, enclosing Timeout, ExecutionResult.Cancel), fired before submission, from inside attempt k, from inside OnRetryScheduled (the start of a retry wait), from inside an enclosed fallback, from another goroutine after a generated spin, or after completion, with 1-hour retry delays / permit waits / hedge delays pending. A recorded event log is judged: the returned error is the source's error or a result the execution had already completed with, never anything else and never the output of an enclosed fallback; at most one attempt starts after the cancellation took effect; the call returns within 30 s despite the 1 h waits; the function sees the cancellation. Spin batches (thousands of cheap trials) aim at the ~100 ns windows between retry steps. Sampling of schedules, not proof.",
+        design_ref="DESIGN.md section 6, C08",
+        note="One cancellation source per execution. The marker 'cancellation in effect' is logged only once the context the function sees is done, so bounds on what happens afterwards are sound. Windows narrower than the trial counts can hit are not decided.",
+        technique="property-based testing (rapid): generated cancellation points owned by the harness (inside the function / listeners) + randomised spin-race trials, judged by history invariants over a linearised event log",
+    ),
+})
 NOT_APPLICABLE = [dict(property_id=p, reason="check not built yet in this session (work in progress; DESIGN.md section 6 describes the planned property-based check)") for p in ALL if p not in META]
